@@ -65,6 +65,15 @@ CLAIMS = {
    note="Trusted: TLC, Fix.tla, harness quotient/floor witnesses (verified by the spec before use), 50-digit pi for radian inputs.",
    technique="TLA+ ADT + heap model; TLC-generated behaviours replayed on real objects; trace validation",
    ref="5/C03"),
+ "C02": dict(
+   text="The abstract value of an Epoch is an instant in days; TLC recomposes every date/time tuple the implementation returns "
+        "on the model-checked calendar chain (exact fixed point) and requires canonical field ranges, 1e-8-day round trips, a "
+        "non-decreasing date tuple along each sorted JDE sweep (action property over consecutive events), agreement of all "
+        "documented input forms to 1e-9 day, the translation laws of +/-/+=/-=/reflected + and the order laws of the six "
+        "comparisons; TLC-generated heap behaviours (ObjHeap, kind epoch) are replayed on real Epoch objects step by step.",
+   note="Trusted: TLC, Calendar.tla/Computus.tla JDNOf (model-checked against the chain), Fix.tla, float->Fix conversion.",
+   technique="TLA+ Epoch ADT over the calendar chain; trace validation of sorted sweeps; TLC behaviours replayed on real objects",
+   ref="5/C02"),
 }
 
 PENDING_REASON = "check not built yet in this round (specification module planned in DESIGN.md section 5); not claimed until its trace specification validates the unchanged tree"
